@@ -104,6 +104,8 @@ def build(case):
             s.saliency = s.saliency * 10 ** rng.uniform(-1, 1, size=(*lead, 1))    # slices with different total saliency
     elif sal == 'wide':
         s.saliency = 10 ** rng.uniform(-2, 0, size=sal_shape)
+        if lead and o.get('saliency_slice_scale') == 'all':
+            s.saliency = s.saliency * 10 ** rng.uniform(-1, 1, size=(*lead, 1))
     elif sal == 'zeros':
         s.saliency = rng.uniform(0.1, 1.0, size=sal_shape)
         z = rng.uniform(size=sal_shape) < 0.2
